@@ -150,7 +150,7 @@ RealDom(f, x) ==
 \* functions whose values on the reals outside RealDom are *required* (the statement: "with complex continuation")
 Continued == {"sqrt", "ln", "log10", "log2"}
 
-\* sign of the (real) value on the real domain: "pos" "neg" "zero" "nonneg" "any"
+\* sign of the (real) value on the real domain: "pos" "neg" "zero" "any"
 SignName(s) == IF s > 0 THEN "pos" ELSE IF s < 0 THEN "neg" ELSE "zero"
 SignOf(f, x) ==
   CASE f \in {"exp", "cosh", "sech"} -> "pos"
@@ -430,10 +430,10 @@ Definitional == <<
   \* Pythagorean identities (moderate points: the two squares cancel)
   Id("pyth_sin", AddT(Sq(fz("sin")), Sq(fz("cos"))), N1, "mod"),
   Id("pyth_sec", SubT(Sq(fz("sec")), Sq(fz("tan"))), N1, "mod"),
-  Id("pyth_csc", SubT(Sq(fz("csc")), Sq(fz("cot"))), N1, "mod"),
+  Id("pyth_csc", SubT(Sq(fz("csc")), Sq(fz("cot"))), N1, "mod_nt"),
   Id("pyth_cosh", SubT(Sq(fz("cosh")), Sq(fz("sinh"))), N1, "mod"),
   Id("pyth_sech", AddT(Sq(fz("sech")), Sq(fz("tanh"))), N1, "mod"),
-  Id("pyth_csch", SubT(Sq(fz("coth")), Sq(fz("csch"))), N1, "mod"),
+  Id("pyth_csch", SubT(Sq(fz("coth")), Sq(fz("csch"))), N1, "mod_nt"),
   \* exponential definitions of the circular and hyperbolic functions
   Id("euler", F1("exp", MulT(Ivar, ZZ)), AddT(fz("cos"), MulT(Ivar, fz("sin"))), "mod"),
   Id("cosh_def", MulT(N2, fz("cosh")), AddT(fz("exp"), F1("exp", NegT(ZZ))), "mod"),
@@ -526,6 +526,8 @@ Guard(g, z, w) ==
   LET x == z[1] IN
   CASE g = "any" -> TRUE
     [] g = "mod" -> Mod3(z[1]) /\ Mod3(z[2]) /\ Mod3(w[1]) /\ Mod3(w[2])
+    \* moderate and not tiny: the difference of two squares of size 1/|z|^2 loses 2 log10(1/|z|) digits
+    [] g = "mod_nt" -> Mod3(z[1]) /\ Mod3(z[2]) /\ (GIs0(z) \/ Leq(Q(1, 1000), RAbs(z[1])) \/ Leq(Q(1, 1000), RAbs(z[2])))
     [] g = "strip" -> Mod3(z[1]) /\ Mod3(z[2])                              \* |Im z| <= 3 < pi and no overflow
     [] g = "int6" -> IsRe(z) /\ x[2] = 1 /\ Abs(x[1]) <= 6
     [] g = "real_mod" -> IsRe(z) /\ Mod3(x)
@@ -563,8 +565,9 @@ Instance(k, z, w, tb) ==
    with a small denominator), sq (the square of a real value as <<n, d>>, or <<>>), mu (value / pi in units of 1e-6)] *)
 GoodErr(o) == o.k = "err" /\ o.sf /\ ~o.warn
 GoodVal(o) == o.k = "val" /\ o.fin /\ ~o.warn
-SignFits(want, sgn) == CASE want = "pos" -> sgn = 1 [] want = "neg" -> sgn = -1 [] want = "zero" -> sgn = 0
-                         [] want = "nonneg" -> sgn >= 0 [] OTHER -> TRUE
+\* (sgn is taken with a band of 1e-9 around 0: exp(-1000) = 0.0 is a positive number as far as floats can tell)
+SignFits(want, sgn) == CASE want = "pos" -> sgn >= 0 [] want = "neg" -> sgn <= 0 [] want = "zero" -> sgn = 0
+                         [] OTHER -> TRUE
 MicroIn(mu, iv) == Leq(Mul(iv[1], FromInt(1000000)), FromInt(mu + 1)) /\ Leq(FromInt(mu - 1), Mul(iv[2], FromInt(1000000)))
 ValueFits(e, o) ==
   CASE e.k \in {"exact", "silent"} -> o.sh = e.v.sh /\ o.q = e.v.e
@@ -614,7 +617,8 @@ LawUnit == A!GMul(II, II) = GI(-1) /\ A!GIPow(II, 4) = GI(1)
 NegIv(iv) == <<Neg(iv[2]), Neg(iv[1])>>
 LawAngle(x, y) == (x[1] # 0 \/ y[1] # 0) =>
   LET a == AngleOf(x, y) IN
-  /\ Leq(a[1], a[2]) /\ Lt(Neg(One), a[1]) /\ Leq(a[2], One)                       \* inside (-pi, pi]
+  /\ Leq(a[1], a[2]) /\ Leq(Neg(One), a[1]) /\ Leq(a[2], One)                      \* inside (-pi, pi]:
+  /\ (a[1] = a[2]) => a[1] # Neg(One)                                               \* -pi itself is never the answer
   /\ Leq(Sub(a[2], a[1]), Q(1, 4))
   /\ (y[1] # 0 \/ x[1] > 0) => AngleOf(x, Neg(y)) = NegIv(a)                       \* mirror in the x axis
   /\ (x[1] > 0 /\ y[1] > 0) => AngleOf(y, x) = <<Sub(H, a[2]), Sub(H, a[1])>>      \* swapping the arguments mirrors in the diagonal
